@@ -88,9 +88,11 @@ fn cmd_check(args: &[String]) -> i32 {
     let _ = std::fs::create_dir_all(format!("{root}/replays"));
     let inflight = format!("{root}/replays/.inflight-{}-{}", prop, std::process::id());
     let mut child_args = vec!["child-check".to_string(), prop.clone(), "--tier".into(), tier.clone(), "--inflight".into(), inflight.clone()];
-    if let Some(s) = arg_val(args, "--scale") {
-        child_args.push("--scale".into());
-        child_args.push(s);
+    for opt in ["--scale", "--evidence-name"] {
+        if let Some(s) = arg_val(args, opt) {
+            child_args.push(opt.into());
+            child_args.push(s);
+        }
     }
     // generous wall budget: only to give up on a hang, never to decide a run
     let budget = if thorough { 4 * 3600 } else { 1500 };
@@ -317,7 +319,8 @@ fn cmd_child_check(args: &[String]) -> i32 {
         }
     }
     let wall = t0.elapsed().as_secs_f64();
-    write_evidence(&prop, &spec, thorough, seed, &total, &per_world, wall, exit, &known_seen, &violation_samples);
+    let ev_name = arg_val(args, "--evidence-name").unwrap_or_else(|| prop.clone());
+    write_evidence(&prop, &ev_name, &spec, thorough, seed, &total, &per_world, wall, exit, &known_seen, &violation_samples);
     println!(
         "check {prop}: {} runs, {} operations, {} invariant evaluations, {} faults fired, {} distinct non-trivial logs, {:.1}s -> {}",
         total.runs,
@@ -361,6 +364,7 @@ fn merge(a: &mut BatchResult, r: &BatchResult) {
 #[allow(clippy::too_many_arguments)]
 fn write_evidence(
     prop: &str,
+    ev_name: &str,
     spec: &props::PropSpec,
     thorough: bool,
     seed: u64,
@@ -393,6 +397,20 @@ fn write_evidence(
     if samples.is_empty() {
         samples.push(serde_json::json!({"note": "no sample captured"}));
     }
+    // a preceding pass of the same check built like a user's `cargo build --release` (no debug assertions, wrapping arithmetic)
+    let shipped_pass: serde_json::Value = if ev_name == prop {
+        std::fs::read_to_string(format!("{root}/evidence/{prop}.shipped-profile.json"))
+            .ok()
+            .and_then(|s| serde_json::from_str::<serde_json::Value>(&s).ok())
+            .map(|v| serde_json::json!({
+                "runs": v["coverage"]["simulated_runs"], "operations": v["coverage"]["simulated_time_steps"],
+                "violations": v["violations"], "wall_s": v["wall_s"], "tier": v["tier"], "seed": v["seed"],
+                "note": "same worlds, binary built with debug-assertions and overflow-checks off"
+            }))
+            .unwrap_or(serde_json::Value::Null)
+    } else {
+        serde_json::Value::Null
+    };
     let ev = serde_json::json!({
         "property_id": prop,
         "tier": if thorough { "thorough" } else { "quick" },
@@ -400,6 +418,8 @@ fn write_evidence(
         "level": "exploration",
         "coverage": {
             "evaluations": t.runs,
+            "build_profile": if cfg!(debug_assertions) { "optimised, debug-assertions and overflow-checks ON (rsdd's own debug_assert!s act as extra monitors)" } else { "shipped: debug-assertions and overflow-checks OFF" },
+            "shipped_profile_pass": shipped_pass,
             "distinct_nontrivial": t.distinct_nontrivial.len(),
             "rule": spec.rule,
             "samples": samples,
@@ -429,7 +449,7 @@ fn write_evidence(
         "wall_s": (wall * 1000.0).round() / 1000.0,
         "violations": if exit == 0 { 0 } else { 1 },
     });
-    std::fs::write(format!("{root}/evidence/{prop}.json"), serde_json::to_string_pretty(&ev).unwrap()).expect("write evidence");
+    std::fs::write(format!("{root}/evidence/{ev_name}.json"), serde_json::to_string_pretty(&ev).unwrap()).expect("write evidence");
 }
 
 // ------------------------------------------------------------------ replay / run-one
